@@ -132,6 +132,13 @@ Theorem C06_trend_strength_cross_as_coded (s0 : tsx_st (N := NumR)) cs k :
   a_sub (cross_under_def (pair_hist tsx_next s0 cs k (f0, z) (vi_const 0 z)))
         (cross_above_def (pair_hist tsx_next s0 cs k (f0, fneg z) (vi_const 0 (fneg z)))).
 Proof. exact (tsx_cross_signal_as_coded s0 cs k). Qed.
+(** CommodityChannelIndex: the signal is exactly the zone-entry rule on the current and the previously returned value
+    ([cci_rule z v last] = [v < -z and last >= -z] - [v > z and last <= z]); the latch in the state never suppresses a signal *)
+Theorem C06_commodity_channel_index period (zone : R) src (c0 : candle (N := NumR)) cs c s0 : ccii_init period zone src c0 = Ok s0 ->
+  let st := steps ccii_next s0 cs in let r := snd (ccii_next st c) in
+  let last := match rev (run ccii_next s0 cs) with [] => f0 | q :: _ => vals q 0 end in
+  sigs r = [a_from_i8 (cci_rule zone (vals r 0) last)].
+Proof. exact (cci_signal_correct period zone src c0 cs c s0). Qed.
 End C06.
 
 (** signals that are a function of the values returned at the same step: the documented rule holds in EVERY state
